@@ -54,30 +54,39 @@ class Condition(abc.ABC):
     def _qasm_(self, args: cirq.QasmArgs, **kwargs) -> str | None:
         return self.qasm
 
-    def _with_measurement_key_mapping_(self, key_map: Mapping[str, str]) -> cirq.Condition:
+    def _replace_keys(
+        self, replacements: Mapping[cirq.MeasurementKey, cirq.MeasurementKey]
+    ) -> cirq.Condition:
+        """Replaces several control keys at once.
+
+        The replacement is simultaneous whenever the condition can do it (so that
+        e.g. swapping two keys works); the fallback replaces them one by one.
+        """
         condition = self
-        for k in self.keys:
-            condition = condition.replace_key(k, mkp.with_measurement_key_mapping(k, key_map))
+        for current, replacement in replacements.items():
+            condition = condition.replace_key(current, replacement)
         return condition
 
+    def _with_measurement_key_mapping_(self, key_map: Mapping[str, str]) -> cirq.Condition:
+        return self._replace_keys(
+            {k: mkp.with_measurement_key_mapping(k, key_map) for k in self.keys}
+        )
+
     def _with_key_path_prefix_(self, path: tuple[str, ...]) -> cirq.Condition:
-        condition = self
-        for k in self.keys:
-            condition = condition.replace_key(k, mkp.with_key_path_prefix(k, path))
-        return condition
+        return self._replace_keys({k: mkp.with_key_path_prefix(k, path) for k in self.keys})
 
     def _with_rescoped_keys_(
         self, path: tuple[str, ...], bindable_keys: frozenset[cirq.MeasurementKey]
     ) -> cirq.Condition:
-        condition = self
+        replacements = {}
         for key in self.keys:
             for i in range(len(path) + 1):
                 back_path = path[: len(path) - i]
                 new_key = key.with_key_path_prefix(*back_path)
                 if new_key in bindable_keys:
-                    condition = condition.replace_key(key, new_key)
+                    replacements[key] = new_key
                     break
-        return condition
+        return self._replace_keys(replacements)
 
 
 @dataclasses.dataclass(frozen=True)
@@ -274,6 +283,18 @@ class SympyCondition(Condition):
 
     def replace_key(self, current: cirq.MeasurementKey, replacement: cirq.MeasurementKey):
         return SympyCondition(self.expr.subs({str(current): sympy.Symbol(str(replacement))}))
+
+    def _replace_keys(
+        self, replacements: Mapping[cirq.MeasurementKey, cirq.MeasurementKey]
+    ) -> SympyCondition:
+        substitutions = {
+            sympy.Symbol(str(current)): sympy.Symbol(str(replacement))
+            for current, replacement in replacements.items()
+            if current != replacement
+        }
+        if not substitutions:
+            return self
+        return SympyCondition(self.expr.xreplace(substitutions))
 
     def __str__(self):
         return str(self.expr)
